@@ -16,5 +16,6 @@ TECH = {
  "C06": "send-after-close typestate over goroutine roles (join tables), close-site ordering (dominance), lock-region flag tests, WaitGroup pairing (static analysis)",
  "C08": "spawn-freedom of the dispatch path over the call graph, who-may-send tables by message type and owner confinement, unbuffered single-consumer hand-off checks (static analysis)",
  "C11": "type-graph isolation, constructor who-may-call tables, package-level write audit, config aliasing and dict freshness analysis (static analysis)",
+ "C18": "table agreement between URI constants, registry and handlers (external WAMP meta API table), error-URI set audit, owner confinement, meta-event guard/order obligations (static analysis)",
  "C03": "SSA edge-cut guard obligations, switch/case-set agreement, INVOCATION provenance (static analysis)",
 }
